@@ -23,7 +23,11 @@ func childMain(args []string) {
 		os.Exit(2)
 	}
 	in := bufio.NewReaderSize(os.Stdin, 1<<20)
-	out := bufio.NewWriterSize(os.Stdout, 1<<20)
+	// The real code prints diagnostics with fmt.Printf (e.g. ratingPartition before panic("nan")): keep them off
+	// the protocol stream. fmt resolves os.Stdout at call time, so redirecting the variable is enough.
+	proto := os.Stdout
+	os.Stdout = os.Stderr
+	out := bufio.NewWriterSize(proto, 1<<20)
 	for {
 		line, err := in.ReadString('\n')
 		if len(line) > 0 {
